@@ -902,7 +902,8 @@ class GroupBy:
             results_one_value = results[slice_]
             combined = numba_funcs._build_target_for_groupby(
                 results_one_value[0].dtype,
-                func_name,
+                # partial counts are added up: an integer sum target, not the boolean placeholder
+                "sum" if func_name in ("size", "count") else func_name,
                 len(self._result_index) + 1,
             )
             counts_one_value = counts[slice_]
